@@ -2827,8 +2827,10 @@ func deviceWant(a, b *fixture.Proto) (want []error) {
 const forwarderFrame = "mangos/v3.forwarder"
 const deviceCreator = "created by go.nanomsg.org/mangos/v3.Device"
 
-// countForwarders is fixture.CountGoroutines(forwarderFrame) with a small, growing buffer
-// (it is called about a thousand times).
+// countForwarders counts the goroutines started by Device.  It is fixture.CountGoroutines with a
+// small, growing buffer (it is called about a thousand times) and it also recognises a forwarder
+// by its "created by" line: while such a goroutine winds down its dump momentarily lacks the
+// forwarder frame, and a count that flickers to zero would end the wait loop below too early.
 func countForwarders() int {
 	buf := make([]byte, 1<<16)
 	for {
@@ -2844,15 +2846,12 @@ func countForwarders() int {
 		if bytes.Contains(g, []byte(forwarderFrame)) || bytes.Contains(g, []byte(deviceCreator)) {
 			c++
 			lastForwarder = string(g)
-		} else if bytes.Contains(g, []byte("unavailable")) {
-			fmt.Printf("UNAVAILABLE: %s\n", g)
 		}
 	}
 	return c
 }
 
 var lastForwarder string
-var dbgLog = make([]string, 6)
 
 func TestC19Device(t *testing.T) {
 	const test = "TestC19Device"
@@ -2911,8 +2910,15 @@ func TestC19Device(t *testing.T) {
 					r.fail(key, doc, "Device(%s,%s) = %s, want %s", name(a), name(b), errName(res.err), strings.Join(ws, " or "))
 				case res.err != nil:
 					// refused: nothing may have been started
-					if n := countForwarders(); n != 0 {
-						r.fail("C19:device-side-effect", doc, "Device(%s,%s) failed with %s but %d forwarder goroutine(s) are running\n%s\n%v", name(a), name(b), errName(res.err), n, lastForwarder, dbgLog[len(dbgLog)-6:])
+					// (the sockets are still open: a forwarder started by this call would stay blocked in
+					// RecvMsg, whereas a straggler of an earlier, closed device is about to exit)
+					n := countForwarders()
+					for i := 0; i < 25 && n != 0; i++ {
+						time.Sleep(20 * time.Millisecond)
+						n = countForwarders()
+					}
+					if n != 0 {
+						r.fail("C19:device-side-effect", doc, "Device(%s,%s) failed with %s but %d forwarder goroutine(s) are running:\n%s", name(a), name(b), errName(res.err), n, lastForwarder)
 					}
 					// and the sockets are untouched: still open, still answering
 					for _, s := range []mangos.Socket{s1, s2} {
@@ -2940,14 +2946,6 @@ func TestC19Device(t *testing.T) {
 					if n := countForwarders(); n != 0 {
 						t.Fatalf("harness: %d forwarders still running after closing Device(%s,%s) sockets", n, name(a), name(b))
 					}
-					for q := 0; q < 5; q++ {
-						if c1, c2 := fixture.CountGoroutines(forwarderFrame), countForwarders(); c1 != 0 || c2 != 0 {
-							fmt.Printf("DISAGREE after %s,%s: try %d fixture=%d mine=%d\n%s\n", name(a), name(b), q, c1, c2, lastForwarder)
-						}
-					}
-					dbgLog = append(dbgLog, fmt.Sprintf("ok %s,%s same=%v waited", name(a), name(b), same))
-				} else {
-					dbgLog = append(dbgLog, fmt.Sprintf("refused %s,%s same=%v err=%v hung=%v pan=%v", name(a), name(b), same, res.err, res.hung, res.pan))
 				}
 				stats.Eval()
 				stats.Class("device:" + strings.Join(func() []string {
